@@ -484,7 +484,7 @@ class NP:
         shape = tuple(P(d) for d in shape)
         A.bshape([x.shape, shape])
         mp = A._bidx(x, len(shape))
-        return Arr(shape, lambda *idx: x.fn(*mp(idx)), x.dtype, x.kind)
+        return Arr(shape, lambda *idx: x.fn(*mp(idx)), x.dtype, x.kind, origin=x.origin)
 
     # ---- products
     def dot(self, a, b):
